@@ -73,6 +73,17 @@ def gen(tier, rng, scale):
             t += 1000 * erng.choice([1, 2, 5, 10, 700, 1000, 3000, 250000])
             items.append([erng.choice(["i", "i", "o", "p", "s", "s", "s"]), t])
         cases.append({"I": 1000000, "items": items, "kind": "e2e"})
+    # the converter's other off-CPU mode: no context-switch records, but a sched:sched_switch tracepoint event recorded next to the main event; a
+    # sched_switch sample ("o") is the thread's switch-out, the next main-event sample ("s") ends the sleep.  Every sample of the thread's table is
+    # observed: time, CPU delta, weight (the off-CPU samples reach the profile in this mode)
+    srng = rng.fork("e2e-sched")
+    for _ in range((50 if quick else 1000) * scale):
+        t = E2E_ORIGIN + 1000 * srng.range(1, 50)
+        items = []
+        for _ in range(srng.range(3, 40)):
+            t += 1000 * srng.choice([1, 2, 5, 10, 700, 1000, 1000, 3000, 250000])
+            items.append([srng.choice(["o", "o", "s", "s", "s"]), t])
+        cases.append({"I": 1000000, "items": items, "kind": "e2e", "mode": "sched"})
     return cases
 
 
@@ -138,6 +149,90 @@ def _e2e_one(samply, case, d):
     return [int(round((x or 0) * mul)) for x in deltas]
 
 
+def _e2e_sched_one(samply, case, d):
+    """-> every sample of thread 100 as (time ns, CPU delta ns, weight), sorted, or None when the import failed"""
+    with _plock:
+        P.set_layout(True, True)
+        P.set_task_event(0)
+        P.set_second_event("sched_switch")
+        try:
+            recs = [P.comm(100, 100, "cs", E2E_ORIGIN + 1, True)]
+            last = E2E_ORIGIN
+            for k, t in case["items"]:
+                last = t
+                recs.append(P.sample(100, 100, t, 0x401160, None, second=(k != "s")))
+            recs.append(P.finished_round())
+            data = P.build(recs, first_time=E2E_ORIGIN, last_time=last)
+        finally:
+            P.set_layout(True, True)
+    pd = os.path.join(d, "rec.perf.data")
+    open(pd, "wb").write(data)
+    outp = os.path.join(d, "out.json")
+    r = subprocess.run([samply, "import", pd, "--save-only", "-o", outp], capture_output=True, text=True, timeout=300)
+    if r.returncode != 0 or not os.path.exists(outp):
+        return None
+    prof = json.load(open(outp))
+    th = [x for x in prof["threads"] if str(x["tid"]).split(".")[0] == "100"]
+    if len(th) != 1:
+        return None
+    sm = th[0]["samples"]
+    n = sm["length"]
+    deltas = sm.get("threadCPUDelta") or [0] * n
+    weights = sm.get("weight") or [1] * n
+    unit = (prof["meta"].get("sampleUnits") or {}).get("threadCPUDelta", "\u00b5s")
+    mul = {"ns": 1, "\u00b5s": 1000, "us": 1000}.get(unit)
+    if mul is None:
+        return None
+    if "time" in sm:
+        times = sm["time"]
+    else:
+        times, acc = [], 0.0
+        for x in sm["timeDeltas"]:
+            acc += x
+            times.append(acc)
+    out = []
+    for tm, dl, w in zip(times, deltas, weights):
+        if w is None or w < 0:
+            return None
+        out.append((E2E_ORIGIN + int(round(tm * 1e6)), int(round((dl or 0) * mul)), int(w)))
+    return sorted(out)
+
+
+def _evaluate_e2e_sched(cases):
+    ok, log, samply = K.cargo_build_samply()
+    if not ok:
+        raise K.TieBroken("samply does not build:\n" + log[-1500:])
+    base = os.path.join(K.SCRATCH, "c12s_%d" % os.getpid())
+    shutil.rmtree(base, ignore_errors=True)
+    os.makedirs(base)
+
+    def one(i):
+        d = os.path.join(base, "h%d" % i)
+        os.makedirs(d)
+        try:
+            return _e2e_sched_one(samply, cases[i], d)
+        finally:
+            shutil.rmtree(d, ignore_errors=True)
+    try:
+        with ThreadPoolExecutor(max_workers=K.NCPU) as ex:
+            results = list(ex.map(one, range(len(cases))))
+    finally:
+        shutil.rmtree(base, ignore_errors=True)
+    terms = []
+    for c, obs in zip(cases, results):
+        items = c["items"]
+        lastsample = max([j for j, it in enumerate(items) if it[0] == "s"] + [-1])
+        evs = [("Sample %d" if it[0] == "s" else "SwOut %d") % it[1] for it in items[:lastsample + 1]]
+        c["_obs"] = obs
+        terms.append("(%d, %s, %s, %s)" % (c["I"], K.coq_list(evs), K.coq_list(["(%d, %d, %d)" % x for x in (obs or [])]), "true" if obs is None else "false"))
+    shards = ["Definition cases : list (N * list ev * list obs3 * bool) := %s.\nEval vm_compute in (map verdict_e2e_sched cases).\n" % K.coq_list(ch) for ch in K.chunked(terms, K.NCPU)]
+    try:
+        res = K.coq_eval(PROP, "From SV Require Import Model.ContextSwitch Spec.ContextSwitchSpec Tie.C12.\nOpen Scope N_scope.", shards)
+    except RuntimeError as ex:
+        raise K.TieBroken(str(ex))
+    return [v for r in res for v in r]
+
+
 def _evaluate_e2e(cases):
     ok, log, samply = K.cargo_build_samply()
     if not ok:
@@ -180,6 +275,17 @@ def _evaluate_e2e(cases):
 def evaluate(cases):
     if not cases:
         return []
+    sched = [i for i, c in enumerate(cases) if c.get("kind") == "e2e" and c.get("mode") == "sched"]
+    if sched:
+        sv = _evaluate_e2e_sched([cases[i] for i in sched])
+        rest = [i for i in range(len(cases)) if i not in set(sched)]
+        rv = evaluate([cases[i] for i in rest])
+        out = [None] * len(cases)
+        for i, v in zip(sched, sv):
+            out[i] = v
+        for i, v in zip(rest, rv):
+            out[i] = v
+        return out
     e2e = [i for i, c in enumerate(cases) if c.get("kind") == "e2e"]
     if e2e:
         ev = _evaluate_e2e([cases[i] for i in e2e])
